@@ -281,6 +281,16 @@ def run(res, tier, seed):
     for _ in range(extra):
         M, bnds, prof = gen_system(rng)
         run_oracle(res, M, bnds, rng=rng)
+    for _ in range(12 if tier == "quick" else 120):
+        # a wide-range column (the default integer range) under a coefficient beyond 2^16: products beyond 32 bits
+        big = rng.choice([65537, 70000, 131072, 2 ** 20]) * rng.choice([1, 1, -1])
+        nb = rng.randint(1, 2)
+        Mw = [[rng.choice([1, 0, -5, 4178, big]), big] + [rng.choice([1, -1, 2]) for _ in range(nb)]]
+        if rng.random() < 0.5:
+            Mw.append([rng.choice([0, 1]), rng.choice([0, 1, -1])] + [rng.choice([1, 0, -1]) for _ in range(nb)])
+        bw = [(-32768, 32767)] + [(0, 1)] * nb
+        res.count("wide_column_big_coefficient")
+        run_oracle(res, Mw, bw, rng=rng)
     for _ in range(8 if tier == "quick" else 80):
         M, bnds, x0 = gen_large_sparse_planted(rng)
         res.count("large_sparse_polyhedra")
